@@ -66,6 +66,14 @@ func checkDecode(c strCase) (h.Info, error) {
 	if hrp != r.HRP || !bytes.Equal(data, r.Data) {
 		return info, fmt.Errorf("Decode(%q) = (%q, %x), reference (%q, %x)", s, hrp, data, r.HRP, r.Data)
 	}
+	// no state between calls: overwrite the returned bytes and decode the same string again
+	for i := range data {
+		data[i] ^= 0xff
+	}
+	if hrp2, data2, err2 := bech32.Decode(s); err2 != nil || hrp2 != r.HRP || !bytes.Equal(data2, r.Data) {
+		return info, fmt.Errorf("second Decode(%q) = (%q, %x, %v) after the first result was overwritten; want (%q, %x)", s, hrp2, data2, err2, r.HRP, r.Data)
+	}
+	data = r.Data
 	re, err := bech32.Encode(hrp, data)
 	if err != nil || re != ref.AsciiLower(s) {
 		return info, fmt.Errorf("Decode(%q) accepted but Encode(%q,%x) = %q,%v (want the lower-cased input)", s, hrp, data, re, err)
